@@ -4,12 +4,12 @@ EXTRA_TARGETS = ("BS.Properties.C06r",)
 SUBS = ["C06sev", "C06"]
 PARALLEL = {"C06": 8}
 TIMEOUT = {"quick": 1500, "thorough": 7000}
-RULE = ("matrix: site {ReaderFunc, WriterFunc, Scan callback, Map, Filter, Flatmap, Fold, Reduce combiner, Repartition partitioner} "
+RULE = ("matrix: site {ReaderFunc, the stream of a ScanReader, WriterFunc, Scan callback, Map, Filter, Flatmap, Fold, Reduce combiner, Repartition partitioner} "
         "x mode {error, temporary error, panic, partition out of range (n and -1)} (as applicable to the site) x {persistent, one-shot} "
         "x failing call index k in {0,1,2,3,5,8,13,40} (first row, vector boundaries of CH 1/2/4, last rows, never) x downstream "
         "{nothing, reduce, reshuffle+map, head 2, head 4} x configuration {local with parallelism 4 and 1, bigmachine testsystem 2x2, 1x1, 1x4 with machine combiners} x vector size "
         "{1,2,4,128}; after the faulty program a healthy program runs in the same session; thorough = the whole matrix, quick = a "
-        "seeded 1/5 sample stratified by site; non-trivial = the failure actually fired")
+        "seeded 1/8 sample; non-trivial = the failure actually fired")
 TRUST = ["the harness counts the failing calls of the injected function (fired=) in-process; bigmachine workers are testsystem "
          "machines in the same process"]
 ASSUMPTIONS = ["a one-shot non-temporary failure may either fail the run or be absorbed; if the run succeeds its rows must be complete",
@@ -22,6 +22,8 @@ SITES = [
     # many distinct keys: a task that combines its own output has flushed rows into its combiners before the failing call
     # (a retried attempt must not find them there)
     ("reader", "N1=reader 2 2 " + " ".join("%d:%d" % ((i * 5) % 31, i) for i in range(70)), "N1", ["tmp", "err"]),
+    # ScanReader over a user stream that fails before its first line or between two lines
+    ("reader", "N1=lines 2 9", "N1", ["err", "tmp", "panic"]),
     ("writer", "N0=const 2 " + ROWS + " ; N1=writer N0", "N1", ["err", "tmp", "panic"]),
     ("scan", "N0=const 2 " + ROWS + " ; N1=scan N0", "N1", ["err", "tmp", "panic"]),
     ("map", "N0=const 2 " + ROWS + " ; N1=map N0 inc", "N1", ["panic"]),
@@ -71,7 +73,7 @@ def gen(r, tier, sub):
     allc = list(matrix())
     if tier == "quick":
         for site, c in allc:
-            if r.below(5) == 0:
+            if r.below(8) == 0:
                 yield c
     else:
         for _, c in allc:
